@@ -32,17 +32,18 @@ CDATA_ONLY = ("step_name", "stdout", "stderr")
 
 # representatives per character class of specs/XmlEscape.tla; the first two are used in the quick tier
 REPS = {
-    "plain": [u"a", u";", u" "],
+    "plain": [u"a", u";", u"#", u"="],          # no blanks: str.strip() of the message would make them vanish
     "lt": [u"<"], "amp": [u"&"], "quot": [u'"'], "apos": [u"'"], "rbr": [u"]"], "gt": [u">"],
     "ws": [u"\t", u"\n", u"\r"],
-    "c0": [u"\x01", u"\x08", u"\x00"],
+    "c0": [u"\x01", u"\x08", u"\x00", u"\x0e"],
+    "c0ws": [u"\x0c", u"\x1f", u"\x0b", u"\x1c"],        # C0 controls that str.strip() treats as white space
     "delc1": [u"\x7f", u"\x9f", u"\x80"],
     "esc": [u"\x1b"], "lbr": [u"["],
     "digit": [u"0", u"7", u"\u0663"],        # U+0663 ARABIC-INDIC DIGIT THREE is a \d for strip_escapes
     "m": [u"m", u"A"],
     "fffe": [u"\ufffe", u"\uffff"],
     "astral": [u"\U0001F600", u"\U00010000", u"\U0001FFFE"],
-    "nonascii": [u"\xe9", u"\u4e2d", u"\x85", u"\u2028"],
+    "nonascii": [u"\xe9", u"\u4e2d", u"\xdf", u"\ufffd"],
 }
 # class strings beyond the quick bound that exercise the interplay of strip_escapes, ]]> and the illegal-character filter
 TARGETED = [
@@ -53,7 +54,7 @@ TARGETED = [
     ["rbr", "c0", "rbr", "gt"], ["rbr", "rbr", "c0", "gt"], ["rbr", "rbr", "amp", "plain", "plain", "plain"],
     ["amp", "plain", "digit", "plain"], ["amp", "lt", "quot", "apos", "gt"],
     ["lt", "plain", "rbr", "rbr", "gt", "quot", "amp"],
-    ["ws", "ws", "plain", "ws"], ["ws", "c0", "ws"], ["esc", "lbr", "digit", "m"], ["esc", "lbr", "m"],
+    ["ws", "ws", "plain", "ws"], ["ws", "c0", "ws"], ["c0ws", "ws", "c0ws"], ["c0ws", "plain", "c0ws"], ["esc", "lbr", "digit", "m"], ["esc", "lbr", "m"],
     ["fffe", "astral", "nonascii", "delc1"], ["quot", "quot", "apos", "apos"],
 ]
 
@@ -85,9 +86,16 @@ def parse_report(path):
         return False, str(e), got
 
 
+def _is_xml_text(text):
+    return all(c in u"\t\n\r" or u" " <= c <= u"\ud7ff" or u"\ue000" <= c <= u"\ufffd" or c >= u"\U00010000" for c in text)
+
+
 def _reached(doc, got):
-    """did the payload arrive where the reporter puts it (attributes compared exactly; CDATA sources: section present)"""
+    """did the payload arrive where the reporter puts it (attributes compared exactly; CDATA sources: section present);
+    only asked for payloads that an XML document can carry at all"""
     text = doc["text"]
+    if not _is_xml_text(text):
+        return True
     stem = "d%07d" % doc["idx"]
     ok = True
     if "feature_name" in doc["sources"] and text:
@@ -307,7 +315,7 @@ def observe(payloads, procs):
 
 
 # ------------------------------------------------------------------ judge + report
-CLS_ORDER = ["plain", "lt", "amp", "quot", "apos", "rbr", "gt", "ws", "c0", "delc1", "esc", "lbr", "digit", "m",
+CLS_ORDER = ["plain", "lt", "amp", "quot", "apos", "rbr", "gt", "ws", "c0", "c0ws", "delc1", "esc", "lbr", "digit", "m",
              "fffe", "astral", "nonascii"]      # = ClsOrder of XmlEscape_Trace.tla (bit k of the mask)
 
 
@@ -363,17 +371,23 @@ def run_xml(chk, workers=16, procs=None):
                 key = "%s:%s" % (ctx, "attr_ctrl" if (ctx == "attr" and c["kf"]) else "other")
                 design[key] = design.get(key, 0) + 1
     strings = sorted(strings, key=lambda s: (len(s), s))
-    full_upto = 3 if chk.quick() else 4
-    longer = [s for s in strings if len(s) > full_upto]
-    sample_n = 600 if chk.quick() else 30000
-    chosen = [s for s in strings if len(s) <= full_upto] + sorted(rnd.sample(longer, min(sample_n, len(longer))))
-    chosen += [tuple(t) for t in TARGETED if tuple(t) not in set(chosen)]
+    # real runs: every class string up to length 3; of the longer ones a seeded sample per length
+    full_upto = 3
+    chosen = [s for s in strings if len(s) <= full_upto]
+    sampled = 0
+    for n in sorted({len(s) for s in strings if len(s) > full_upto}):
+        pool = [s for s in strings if len(s) == n]
+        take = (600 if n == 4 else 0) if chk.quick() else (30000 if n == 4 else 6000)
+        pick = sorted(rnd.sample(pool, min(take, len(pool))))
+        sampled += len(pick)
+        chosen += pick
+    have = set(chosen)
+    chosen += [tuple(t) for t in TARGETED if tuple(t) not in have]
     payloads = []
     seen = set()
     for s in chosen:
-        n = len(s)
         for text in payloads_for(list(s), rnd, nreps=2 if chk.quick() else 4, combos_upto=2,
-                                 picks=1 if (chk.quick() or n >= 4) else 2):
+                                 picks=1 if (chk.quick() or len(s) >= 4) else 2):
             if (s, text) not in seen:
                 seen.add((s, text))
                 payloads.append((s, text))
@@ -398,11 +412,11 @@ def run_xml(chk, workers=16, procs=None):
     chk.extra["distinct_nontrivial"] = chk.extra.get("distinct_nontrivial", 0) + len({p[1] for p in payloads if len(p[1]) > 1})
     for row in rows[:1] + [row for row in rows if not row["wellformed"]][:1] + rows[-1:]:
         chk.sample({"source": row["src"], "classes": row["s"], "text": meta[row["id"]]["text"], "wellformed": row["wellformed"]}, limit=6)
-    rule = ("xml: every class string up to length %d over 17 character classes per context (TLC, exhaustive%s); real runs: "
+    rule = ("xml: every class string up to length %d over 18 character classes per context (TLC, exhaustive%s); real runs: "
             "every class string up to length %d + %d seeded longer ones + %d targeted ones, representatives per class, in six "
             "sources of text of a real run with --junit; every report parsed by expat" % (
                 4 if chk.quick() else 5, "" if chk.quick() else "; length 6 over the 10 classes with a role, length 7 over the ANSI/CDATA classes",
-                full_upto, min(sample_n, len(longer)), len(TARGETED)))
+                full_upto, sampled, len(TARGETED)))
     chk.rule = (chk.rule + " || " if chk.rule else "") + rule
     chk.assumptions += [
         "C16 xml: names are assigned on the parsed model objects (feature.name, scenario.name, step.name): the Gherkin parser "
